@@ -11,32 +11,44 @@ Definition ops_of (items : list item) : list op := map fst items.
 Lemma pipe_tail_stops ts tail : op_stops (pipe_tail_text ts ++ 125 :: tail).
 Proof. destruct ts as [|t ts]; cbn; eexists; eexists; (split; [reflexivity|]); auto. Qed.
 
+Lemma mapM_Ok (l : list op) : mapM (fun o => Ok o) l = Ok l.
+Proof. induction l as [|o l IH]; [reflexivity|]. cbn [mapM bind]. rewrite IH. reflexivity. Qed.
+
 Lemma run_star (a : peg rule) at_ inp : run (PStar a) at_ inp = star_loop (run a at_) (S (length inp)) inp.
 Proof. reflexivity. Qed.
 
-Section Pipe.
+(* The generic pipeline lemma.  [R o txt rest]: the text txt, followed by rest, is read by
+   the operation rule as o.  What may follow is part of the relation because some arguments
+   (regular expressions) end only where a look-ahead of the grammar says so. *)
+Section PipeCtx.
   Variable r : peg rule.          (* the operation rule *)
   Variable wrap : rule.           (* its id *)
-  Variable R : op -> str -> Prop. (* the spellings it reads *)
+  Variable R : op -> str -> str -> Prop.
   Variable conv : ptree -> outcome op.
-  Hypothesis Hop : forall o txt rest, R o txt -> op_stops rest ->
-    exists k, run r false (txt ++ rest) = Some (txt, [Node (Some wrap) txt [k]], rest) /\ conv k = Ok o.
+  Variable res : op -> outcome op. (* what the converter answers for the operation read *)
+  Hypothesis Hop : forall o txt rest, R o txt rest ->
+    exists k, run r false (txt ++ rest) = Some (txt, [Node (Some wrap) txt [k]], rest) /\ conv k = res o.
 
   Definition conv_kid (t : ptree) : outcome op := bind (unwrap_first (t_kids t)) conv.
-  Definition all_spelled (items : list item) : Prop := Forall (fun it => R (fst it) (snd it)) items.
+  (* every item is readable in front of what actually follows it *)
+  Fixpoint chain (items : list item) (tail : str) : Prop :=
+    match items with
+    | [] => True
+    | it :: more => R (fst it) (snd it) (pipe_tail_text (texts more) ++ 125 :: tail) /\ chain more tail
+    end.
 
-  Lemma star_pipe : forall items tail fuel, all_spelled items ->
+  Lemma star_pipe_ctx : forall items tail fuel, chain items tail ->
     Nat.lt (length (pipe_tail_text (texts items) ++ 125 :: tail)) fuel ->
     exists kids, star_loop (run (PSeq (PStr [124]) r) false) fuel (pipe_tail_text (texts items) ++ 125 :: tail)
                  = Some (pipe_tail_text (texts items), kids, 125 :: tail)
-                 /\ mapM conv_kid kids = Ok (ops_of items).
+                 /\ mapM conv_kid kids = mapM res (ops_of items).
   Proof.
     induction items as [|[o txt] items IH]; intros tail fuel Hall Hlen.
     - destruct fuel as [|fuel]; [cbn in Hlen; lia|]. exists []. split; [|reflexivity].
       rewrite star_loop_S. reflexivity.
-    - inversion Hall as [|? ? Ho Hos]; subst. cbn [fst snd] in Ho.
+    - destruct Hall as [Ho Hos]. cbn [fst snd] in Ho.
       destruct fuel as [|fuel]; [lia|].
-      destruct (Hop o txt (pipe_tail_text (texts items) ++ 125 :: tail) Ho (pipe_tail_stops _ tail)) as (k & Hk & Hck).
+      destruct (Hop o txt (pipe_tail_text (texts items) ++ 125 :: tail) Ho) as (k & Hk & Hck).
       assert (Hlen' : Nat.lt (length (pipe_tail_text (texts items) ++ 125 :: tail)) fuel).
       { unfold texts, pipe_tail_text in *. cbn [map flat_map snd] in Hlen. rewrite <- app_assoc in Hlen. cbn [app length] in Hlen.
         rewrite app_length in Hlen. lia. }
@@ -51,22 +63,50 @@ Section Pipe.
                               (length ([124] ++ txt ++ pipe_tail_text (texts items) ++ 125 :: tail)) = true).
         { apply Nat.ltb_lt. cbn [app length]. rewrite (app_length txt). lia. }
         rewrite Hlt, Hs. cbn [app]. rewrite <- ?app_assoc. reflexivity.
-      + cbn [mapM]. unfold conv_kid at 1. cbn [t_kids unwrap_first bind]. rewrite Hck. cbn [bind]. rewrite Hm. reflexivity.
+      + cbn [ops_of map fst mapM]. unfold conv_kid at 1. cbn [t_kids unwrap_first bind]. rewrite Hck. fold (ops_of items). rewrite Hm. reflexivity.
   Qed.
 
   (* head operation followed by ("|" operation)* *)
+  Lemma run_pipe_ctx (listid : rule) it items tail : chain (it :: items) tail ->
+    exists kids, run (PRule listid Normal (PSeq r (PStar (PSeq (PStr [124]) r)))) false (pipe_text (texts (it :: items)) ++ 125 :: tail)
+                 = Some (pipe_text (texts (it :: items)), [Node (Some listid) (pipe_text (texts (it :: items))) kids], 125 :: tail)
+                 /\ mapM conv_kid kids = mapM res (ops_of (it :: items)).
+  Proof.
+    intros Hall. destruct it as [o txt]. destruct Hall as [Ho Hos]. cbn [fst snd] in Ho.
+    cbn [texts map snd pipe_text]. fold (texts items). rewrite <- app_assoc.
+    destruct (Hop o txt (pipe_tail_text (texts items) ++ 125 :: tail) Ho) as (k & Hk & Hck).
+    destruct (star_pipe_ctx items tail (S (length (pipe_tail_text (texts items) ++ 125 :: tail))) Hos (Nat.lt_succ_diag_r _)) as (kids & Hs & Hm).
+    exists (Node (Some wrap) txt [k] :: kids). split.
+    - rewrite run_rule_normal, run_seq, Hk, seq_res_some, run_star, Hs. reflexivity.
+    - cbn [ops_of map fst mapM]. unfold conv_kid at 1. cbn [t_kids unwrap_first bind]. rewrite Hck. fold (ops_of items). rewrite Hm. reflexivity.
+  Qed.
+End PipeCtx.
+
+(* the instance for spellings that only need "|" or "}" after them *)
+Section Pipe.
+  Variable r : peg rule.
+  Variable wrap : rule.
+  Variable R : op -> str -> Prop.
+  Variable conv : ptree -> outcome op.
+  Hypothesis Hop : forall o txt rest, R o txt -> op_stops rest ->
+    exists k, run r false (txt ++ rest) = Some (txt, [Node (Some wrap) txt [k]], rest) /\ conv k = Ok o.
+
+  Definition all_spelled (items : list item) : Prop := Forall (fun it => R (fst it) (snd it)) items.
+
+  Lemma all_spelled_chain items tail : all_spelled items -> chain (fun o t rest => R o t /\ op_stops rest) items tail.
+  Proof.
+    induction 1 as [|it items Hit _ IH]; [exact I|]. cbn [chain]. split; [|exact IH]. split; [exact Hit | apply pipe_tail_stops].
+  Qed.
+
   Lemma run_pipe (listid : rule) it items tail : all_spelled (it :: items) ->
     exists kids, run (PRule listid Normal (PSeq r (PStar (PSeq (PStr [124]) r)))) false (pipe_text (texts (it :: items)) ++ 125 :: tail)
                  = Some (pipe_text (texts (it :: items)), [Node (Some listid) (pipe_text (texts (it :: items))) kids], 125 :: tail)
-                 /\ mapM conv_kid kids = Ok (ops_of (it :: items)).
+                 /\ mapM (conv_kid conv) kids = Ok (ops_of (it :: items)).
   Proof.
-    intros Hall. destruct it as [o txt]. inversion Hall as [|? ? Ho Hos]; subst. cbn [fst snd] in Ho.
-    cbn [texts map snd pipe_text]. fold (texts items). rewrite <- app_assoc.
-    destruct (Hop o txt (pipe_tail_text (texts items) ++ 125 :: tail) Ho (pipe_tail_stops _ tail)) as (k & Hk & Hck).
-    destruct (star_pipe items tail (S (length (pipe_tail_text (texts items) ++ 125 :: tail))) Hos (Nat.lt_succ_diag_r _)) as (kids & Hs & Hm).
-    exists (Node (Some wrap) txt [k] :: kids). split.
-    - rewrite run_rule_normal, run_seq, Hk, seq_res_some, run_star, Hs. reflexivity.
-    - cbn [mapM]. unfold conv_kid at 1. cbn [t_kids unwrap_first bind]. rewrite Hck. cbn [bind]. rewrite Hm. reflexivity.
+    intros Hall. rewrite <- (mapM_Ok (ops_of (it :: items))).
+    apply (run_pipe_ctx r wrap (fun o t rest => R o t /\ op_stops rest) conv (fun o => Ok o)
+             (fun o txt rest H => Hop o txt rest (proj1 H) (proj2 H)) listid it items tail).
+    apply all_spelled_chain. exact Hall.
   Qed.
 End Pipe.
 
@@ -190,6 +230,37 @@ Proof.
     change (mapM (fun op_pair : ptree => bind (unwrap_first (t_kids op_pair)) parse_operation) kids)
       with (mapM (conv_kid parse_operation) kids).
     rewrite Hm. reflexivity.
+Qed.
+
+(* the template rule around an operation list, for any converter outcome *)
+Lemma template_around_list (dbg : bool) (body : str) (kids : list ptree) (out : outcome (list op)) :
+  run r_operation_list false (body ++ [125]) = Some (body, [Node (Some R_operation_list) body kids], [125]) ->
+  (exists c t, body ++ [125] = c :: t /\ N.eqb 33 c = false) ->
+  mapM (conv_kid parse_operation) kids = out ->
+  parse_template (123 :: (if dbg then [33] else []) ++ body ++ [125]) = bind out (fun ops => Ok (ops, dbg)).
+Proof.
+  intros Hrun (c & t & Eh & Hc) Hm.
+  unfold parse_template, r_template. rewrite run_rule_normal, run_seq.
+  destruct dbg.
+  - change (123 :: [33] ++ body ++ [125]) with ([123] ++ [33] ++ body ++ [125]).
+    rewrite run_str, seq_res_some, run_seq, run_opt.
+    unfold r_debug_flag. rewrite run_rule_atomic, run_str.
+    rewrite seq_res_some, run_seq, run_opt, Hrun, seq_res_some, run_seq.
+    change [125] with ([125] ++ []) at 2. rewrite run_str, seq_res_some.
+    cbn [run app bind unwrap_first]. unfold parse_template_tree. cbn [t_kids t_rule].
+    change (mapM (fun op_pair : ptree => bind (unwrap_first (t_kids op_pair)) parse_operation) kids)
+      with (mapM (conv_kid parse_operation) kids).
+    rewrite Hm. destruct out; reflexivity.
+  - change (123 :: [] ++ body ++ [125]) with ([123] ++ body ++ [125]).
+    rewrite run_str, seq_res_some, run_seq, run_opt.
+    assert (Hdbg : run r_debug_flag false (body ++ [125]) = None).
+    { rewrite Eh. unfold r_debug_flag. rewrite run_rule_atomic. rewrite (str_fail_head [] 33 true c _ Hc). reflexivity. }
+    rewrite Hdbg, seq_res_some, run_seq, run_opt, Hrun, seq_res_some, run_seq.
+    change [125] with ([125] ++ []) at 2. rewrite run_str, seq_res_some.
+    cbn [run app bind unwrap_first]. unfold parse_template_tree. cbn [t_kids t_rule].
+    change (mapM (fun op_pair : ptree => bind (unwrap_first (t_kids op_pair)) parse_operation) kids)
+      with (mapM (conv_kid parse_operation) kids).
+    rewrite Hm. destruct out; reflexivity.
 Qed.
 
 (* ---- the canonical printer is one of the spellings ----------------------------------------------- *)
